@@ -1,7 +1,7 @@
 SPECIFICATION Spec
 CONSTANTS
-  N = 4
-  T = 3
+  N = 5
+  T = 4
   Builder = "new"
   ExcludeTouch = TRUE
   ExcludeZeroPairs = FALSE
